@@ -35,6 +35,8 @@ import (
 //   seg n1 e1 n2 e2 ... nk        MarshalSegment bytes (hex) and UnmarshalSegment of them
 //   toseg nodes edges             SerializedSegment{Nodes, Edges}.ToSegment() -> Nodes()/Edges() of the result, or `panic`
 //   tsbfs|tsdfs ts|proj D MAXDEPTH ROOT FILTER     handler calls in order, FILTER = all | nostart:ids | noedge:ids
+//   tssl ts|proj D MAXDEPTH ROOT FILTER            TSStatelessBFS terminals `node@distance*weight` in order, weight(e) = 1 + id%3
+//   numedges C | dims C D         NumEdges() / container.Dimensions(g, D) as `n largestRow`
 //   zone MAXDEPTH ids             WriteZoneBFSTree over the triple store, then BFSTreeFile.ReadEach
 
 type c14Suite struct{}
@@ -90,10 +92,20 @@ func (c *c14Case) queryAll(withNorm bool) {
 			c.add("norm csr %s", d)
 		}
 	}
+	for _, d := range c14Dirs {
+		for _, k := range []string{"am", "csr", "ts", "proj"} {
+			c.add("dims %s %s", k, d)
+		}
+	}
+	for _, k := range []string{"csr", "ts", "proj", "am"} {
+		c.add("numedges %s", k)
+	}
 }
 
 func (c *c14Case) queryProj() {
 	c.add("nodes proj")
+	c.add("numedges proj")
+	c.add("dims proj both")
 	for _, d := range c14Dirs {
 		c.add("adj proj %s", d)
 		c.add("reach proj %s", d)
@@ -356,6 +368,10 @@ func c14Random(rng *Rng, stats *Stats, idx int) *c14Case {
 		if rng.Chance(1, 6) {
 			de = append(de, 999999) // id of no edge
 		}
+		if rng.Chance(1, 3) {
+			dn = append(dn, absent, absent+1) // ids that are not nodes of the store
+			stats.Inc("shape.proj_deletes_non_node")
+		}
 		verb := "proj"
 		if p > 0 && rng.Chance(1, 2) {
 			verb = "proj2"
@@ -418,6 +434,13 @@ func c14Random(rng *Rng, stats *Stats, idx int) *c14Case {
 				cont = "proj"
 			}
 			c.add("%s %s %s %d %d %s", verb, cont, d, md, edges[rng.Intn(len(edges))].s, filt)
+			if t == 0 || rng.Chance(1, 2) {
+				mds := md
+				if mds > 2 {
+					mds = 2 // the stateless bound is counted in edges: one level deeper than TSBFS for the same maxDepth
+				}
+				c.add("tssl %s %s %d %d %s", cont, d, mds, edges[rng.Intn(len(edges))].s, filt)
+			}
 		}
 		if idx%10 == 0 {
 			zone := []uint64{edges[rng.Intn(len(edges))].e}
@@ -437,7 +460,9 @@ func c14Random(rng *Rng, stats *Stats, idx int) *c14Case {
 			c.add("tsdel %d", 424242) // unknown id
 		}
 		c.add("nodes ts")
+		c.add("numedges ts")
 		for _, d := range c14Dirs {
+			c.add("dims ts %s", d)
 			c.add("adj ts %s", d)
 			c.add("reach ts %s", d)
 			c.add("bfs ts %s", d)
@@ -935,6 +960,53 @@ func (r *c14Runner) Step(t []string, raw string) string {
 			out = strings.Join(segs, "|")
 		}
 		return fmt.Sprintf("inc=%d %s", inc, out)
+	case len(t) == 6 && t[0] == "tssl":
+		var ts container.Triplestore
+		switch t[1] {
+		case "ts":
+			ts = r.ts
+		case "proj":
+			ts = r.proj
+		default:
+			return "bad-op"
+		}
+		d, ok := c14Dir(t[2])
+		md, e1 := strconv.Atoi(t[3])
+		root, e2 := strconv.ParseUint(t[4], 10, 64)
+		filt, ok2 := c14Filter(t[5])
+		if !ok || e1 != nil || e2 != nil || !ok2 {
+			return "bad-op"
+		}
+		var terms []string
+		inc := container.TSStatelessBFS(ts, root, d, md, func(e container.Edge) (container.Weight, bool) {
+			return container.Weight(1 + e.ID%3), filt(e)
+		}, func(pt container.PathTerminal) bool {
+			terms = append(terms, fmt.Sprintf("%d@%d*%d", pt.Node, pt.Distance, int64(pt.Weight)))
+			return true
+		}, 1)
+		r.stats.Inc("branch.tssl." + t[2])
+		out := "-"
+		if len(terms) > 0 {
+			out = strings.Join(terms, "|")
+		}
+		return fmt.Sprintf("inc=%d %s", inc, out)
+	case len(t) == 2 && t[0] == "numedges":
+		g := r.view(t[1])
+		ne, ok := g.(interface{ NumEdges() uint64 })
+		if g == nil || !ok {
+			return "bad-op"
+		}
+		r.stats.Inc("branch.numedges." + t[1])
+		return strconv.FormatUint(ne.NumEdges(), 10)
+	case len(t) == 3 && t[0] == "dims":
+		g := r.view(t[1])
+		d, ok := c14Dir(t[2])
+		if g == nil || !ok {
+			return "bad-op"
+		}
+		n, m := container.Dimensions(g, d)
+		r.stats.Inc("branch.dims")
+		return fmt.Sprintf("%d %d", n, m)
 	case len(t) == 3 && t[0] == "zone":
 		md, e1 := strconv.Atoi(t[1])
 		ids, ok := parseIDs(t[2])
